@@ -542,6 +542,10 @@ def run_c18(mbi, case):
                 break
         if bad:
             break
+        v = check_axis_order(dom, tables, meas, total, oracle, tag, probes)
+        if v:
+            viol.append(v.as_dict())
+            break
         L = loss_from(tables, meas)
         uni = {proj: np.full(int(np.prod([dom.config[a] for a in proj])), total / np.prod([dom.config[a] for a in proj])) for _, _, _, proj in meas}
         Lu = loss_from(uni, meas)
@@ -588,6 +592,38 @@ def run_c18(mbi, case):
     nontrivial = len(case['calls']) >= 2 or control[0] > 0
     return dict(violations=viol[:1], measure=measure, nontrivial=nontrivial, faults=faults, probes=probes, steps=steps,
                 digest=core.digest([digests, [v['sig'] for v in viol[:1]]]))
+
+
+def check_axis_order(dom, tables, meas, total, oracle, tag, probes):
+    """the answer for a measured clique is laid out in the clique's own attribute order.  Diagnostic with its own signature (the
+    not-worse-than-uniform and exactness clauses are known findings on the unchanged tree): the table hardly beats the uniform table
+    when read as returned, but fits the data >= 100x better when its cells are read in another axis order."""
+    import itertools
+    for proj in tables:
+        if len(proj) < 2 or len(proj) > 3:
+            continue
+        mine = [m for m in meas if m[3] == proj]
+        shape = [dom.config[a] for a in proj]
+        n = int(np.prod(shape))
+        arr = np.asarray(tables[proj], dtype=float).reshape(shape)
+        L_id = loss_from({proj: arr}, mine)
+        L_uni = loss_from({proj: np.full(n, total / n)}, mine)
+        if not (L_id > 0.5 * L_uni and L_uni > 0):
+            continue
+        for perm in itertools.permutations(range(len(proj))):
+            if list(perm) == sorted(perm):
+                continue
+            # the cells of the returned table, re-read as if they had been stored with the axes in order `perm`
+            other = np.ascontiguousarray(arr.transpose(perm)).reshape(-1)
+            if np.array_equal(other, arr.reshape(-1)):
+                continue
+            L_p = loss_from({proj: other}, mine)
+            probes['axis-order-readings-compared'] = probes.get('axis-order-readings-compared', 0) + 1
+            if L_p <= 0.01 * L_id and L_p < 0.1 * L_uni:
+                return Violation('c18-axis-order', 'c18-axis-order:' + oracle, 'table for measured clique %s: loss %.6g as returned (uniform table: %.6g) but %.6g when its cells are read '
+                                 'with the axes in order %s - the estimator fitted the data in another attribute order than the one it answers in (%s)' % (
+                                     proj, L_id, L_uni, L_p, [proj[i] for i in perm], tag))
+    return None
 
 
 def optimum_disjoint(meas, total):
